@@ -22,11 +22,11 @@ From W.proofs Require Import Sorter_proofs Ingest_proofs.
 From Coq Require Import Sorting.Sorted Sorting.Permutation.
 Local Open Scope N_scope.
 
-(** Ingesting a CSV: every header, key choice, rows within the limit, run size,
+(** Ingesting a CSV: every header, key choice (no column named twice), rows within the limit, run size,
     in-memory sort and arrival order of blocks gives a sound table. *)
 Theorem C03_ingest_wf : forall H sort_rows arrive run_size columns pknames rows,
   sort_ok (length columns) sort_rows -> any_arrival arrive ->
-  incl pknames columns -> wf_rows (length columns) rows -> cells_in_limit rows ->
+  incl pknames columns -> NoDup pknames -> wf_rows (length columns) rows -> cells_in_limit rows ->
   exists T tidx w,
     ingest_table H sort_rows arrive run_size columns pknames rows = (IOk T tidx, w) /\
     WF_table H T tidx.
@@ -36,7 +36,7 @@ Print Assumptions C03_ingest_wf.
 (** Any rows handed to a sorter in any way (every family of sorted runs whose union is
     the row multiset), then IngestTableFromSorter: a sound table, table object last. *)
 Theorem C03_sorter_any_rows_wf : forall H sort_rows arrive columns pk s rows,
-  any_arrival arrive -> wf_pk (length columns) pk -> wf_rows (length columns) rows ->
+  any_arrival arrive -> wf_pk (length columns) pk -> NoDup pk -> wf_rows (length columns) rows ->
   Permutation (concat (runs_of sort_rows pk s)) rows ->
   Forall (run_sorted pk) (runs_of sort_rows pk s) ->
   exists T tidx w,
